@@ -540,9 +540,14 @@ Example twins_project_ok :
   idents twins_project [1; 0] [[1; 0]] =
     [(3, Some (s "x")); (1, Some (s "m")); (4, Some (s "x~2")); (2, Some (s "m~2")); (5, Some (s "t"))].
 Proof.
+  assert (E1 : idsel twins_project [1; 0] = [[mkr 1 (s "module") (s "m"); mkr 2 (s "module") (s "m")]])
+    by (vm_compute; reflexivity).
+  assert (E0 : idsel twins_project [0; 1] = [[mkr 1 (s "module") (s "m"); mkr 2 (s "module") (s "m")]])
+    by (vm_compute; reflexivity).
   split; [simpl; repeat constructor; simpl; intuition discriminate|].
-  split; [apply perm_swap|]. split; [vm_compute; reflexivity|].
-  split; [repeat constructor; apply perm_swap|]. split; [repeat constructor; apply Permutation_refl|].
+  split; [apply perm_swap|]. split; [exact E1|].
+  split; [unfold sigma_ok; rewrite E1; repeat constructor; apply perm_swap|].
+  split; [unfold sigma_ok; rewrite E0; repeat constructor; apply Permutation_refl|].
   split; vm_compute; reflexivity.
 Qed.
 
